@@ -85,17 +85,27 @@ proof fn lemma_pieces_prefix(d0: NodeData, first: NodeData, v: Seq<Rc<RefCell<No
     }
     assert(flat_b(p) == flat_b(p.drop_last()) + nd_b(p.last().cur().data));
     assert(flat_l(p) == flat_l(p.drop_last()) + nd_l(p.last().cur().data));
+    let lo = c[m - 1] as int;
+    let hi = cut_end(c, len, m - 1);
     match d0 {
         NodeData::Branches(o) => {
-            assert(nd_b(first) + flat_b(p) =~= o@.subrange(0, cut_end(c, len, m - 1)));
+            assert(first is Branches && v[m - 1].cur().data is Branches);
+            assert(0 <= lo <= hi <= o@.len());
+            assert(nd_b(v[m - 1].cur().data) == o@.subrange(lo, hi));
+            assert(nd_b(first) + flat_b(p.drop_last()) == o@.subrange(0, lo));
+            assert(nd_b(first) + flat_b(p) =~= (nd_b(first) + flat_b(p.drop_last())) + nd_b(p.last().cur().data));
+            assert(o@.subrange(0, lo) + o@.subrange(lo, hi) =~= o@.subrange(0, hi));
+            assert(nd_l(first) + flat_l(p.drop_last()) =~= Seq::<Leaf>::empty());
             assert(nd_l(first) + flat_l(p) =~= Seq::<Leaf>::empty());
         }
         NodeData::Leaves(o) => {
-            assert(first is Leaves);
-            assert(v[m - 1].cur().data is Leaves);
-            assert(nd_l(v[m - 1].cur().data) == o@.subrange(c[m - 1] as int, cut_end(c, len, m - 1)));
-            assert(nd_l(first) + flat_l(p.drop_last()) == o@.subrange(0, c[m - 1] as int));
-            assert(nd_l(first) + flat_l(p) =~= o@.subrange(0, cut_end(c, len, m - 1)));
+            assert(first is Leaves && v[m - 1].cur().data is Leaves);
+            assert(0 <= lo <= hi <= o@.len());
+            assert(nd_l(v[m - 1].cur().data) == o@.subrange(lo, hi));
+            assert(nd_l(first) + flat_l(p.drop_last()) == o@.subrange(0, lo));
+            assert(nd_l(first) + flat_l(p) =~= (nd_l(first) + flat_l(p.drop_last())) + nd_l(p.last().cur().data));
+            assert(o@.subrange(0, lo) + o@.subrange(lo, hi) =~= o@.subrange(0, hi));
+            assert(nd_b(first) + flat_b(p.drop_last()) =~= Seq::<Branch>::empty());
             assert(nd_b(first) + flat_b(p) =~= Seq::<Branch>::empty());
         }
     }
